@@ -38,7 +38,10 @@ SKY_VERTS = [
     [[266.0, 266.5, 266.6, 266.3, 265.9], [-29.2, -29.2, -28.9, -28.7, -28.9]],
     [[150.0, 150.1, 150.05], [2.0, 2.0, 2.3]],
 ]
-TEXTS = ['hello', 'Region A', 'x', 'a b c', 'M31', '', 'Hello', 'hello ']
+TEXTS = ['hello', 'Region A', 'x', 'a b c', 'M31', '', 'Hello', 'hello ',
+         # ASCII control characters that are NOT line ends (form feed, file
+         # separator): a text with them reads back as it was written
+         'page\x0cbreak', 'a\x1cb']
 
 PIXEL_CLASSES = {
     'CirclePixelRegion': [('center', 'pixpos'), ('radius', 'size')],
@@ -161,8 +164,8 @@ META_VALUES = {
             # values a serialiser may be tempted to "normalise"
             {'t': 'list', 'v': [' padded tag ', 'g2']},
             {'t': 'list', 'v': [1, 'Mixed Case']}],
-    'text': ['lbl', 'some text', 'T{1}', ' padded '],
-    'label': ['L1', 'a label', ' Padded Label '],
+    'text': ['lbl', 'some text', 'T{1}', ' padded ', 'tab\there', 'v\x0bt'],
+    'label': ['L1', 'a label', ' Padded Label ', 'rs\x1esep'],
     'name': ['n1', 'n2'],
     'comment': ['c1', 'a comment'],
     'component': [1, 2, 7],
